@@ -6,8 +6,10 @@ package zzverif
 
 import (
 	"fmt"
+	"strconv"
 	"strings"
 	"testing"
+	"time"
 
 	"google.golang.org/protobuf/proto"
 )
@@ -132,6 +134,211 @@ func c05GenTriple(s Src) c05Case {
 		return b
 	}
 	return c05Case{Kind: "triple", A: a, B: pick(), C: pick()}
+}
+
+// c05GenNear: generated (not pooled) operands and a second operand derived from the first
+// by a small, meaning-laden step: the same value in another spelling (scale, offset,
+// Integer/Decimal), a neighbour one unit in the last place away, a coarser precision.
+func c05GenNear(s Src) c05Case {
+	a := c05GenVal(s)
+	b := a
+	switch a.K {
+	case "Integer":
+		n, _ := strconv.ParseInt(a.S, 10, 64)
+		switch s.Intn(5) {
+		case 0:
+			b = dv(a.S + "." + strings.Repeat("0", s.Range(1, 20)))
+		case 1:
+			b = dv(a.S + "." + strings.Repeat("0", s.Range(0, 18)) + "1")
+		case 2:
+			if n < 2147483647 {
+				b = iv(n + 1)
+			}
+		case 3:
+			if n > -2147483648 {
+				b = iv(n - 1)
+			}
+		case 4:
+			b = c05GenVal(s)
+		}
+	case "Decimal":
+		switch s.Intn(5) {
+		case 0:
+			b = dv(a.S + strings.Repeat("0", s.Range(1, 10))) // another scale
+		case 1:
+			b = dv(a.S + strings.Repeat("0", s.Range(0, 8)) + "1") // a hair larger in magnitude
+		case 2:
+			if i := strings.Index(a.S, "."); i > 0 && len(a.S)-i > 2 {
+				b = dv(a.S[:len(a.S)-1]) // last digit dropped
+			}
+		case 3:
+			if strings.HasPrefix(a.S, "-") {
+				b = dv(a.S[1:])
+			} else {
+				b = dv("-" + a.S)
+			}
+		case 4:
+			b = c05GenVal(s)
+		}
+	case "String":
+		switch s.Intn(5) {
+		case 0:
+			b = sv(a.S + pickOne(s, []string{"a", " ", "\u0301", "é", "😀", "\x00"}))
+		case 1:
+			b = sv(strings.ToUpper(a.S))
+		case 2:
+			r := []rune(a.S)
+			if len(r) > 0 {
+				i := s.Intn(len(r))
+				r[i] = pickOne(s, []rune{'a', 'Z', 'é', '日', '😀', 0xFFFD, 0xE000, 'z' + 1})
+				b = sv(string(r))
+			}
+		case 3:
+			r := []rune(a.S)
+			if len(r) > 0 {
+				b = sv(string(r[:len(r)-1]))
+			}
+		case 4:
+			b = c05GenVal(s)
+		}
+	case "Date", "DateTime", "Time":
+		b = c05NearTemporal(s, a)
+	case "Quantity":
+		switch s.Intn(4) {
+		case 0:
+			b = qv(a.S+".0", a.U)
+		case 1:
+			b = qv(a.S, pickOne(s, []string{"mg", "g", "kg", "1", "days", "day"}))
+		case 2:
+			b = qv(a.S+".001", a.U)
+		case 3:
+			b = c05GenVal(s)
+		}
+	}
+	if _, err := b.build(); err != nil {
+		b = a
+	}
+	if s.Bool() {
+		a, b = b, a
+	}
+	if s.Prob(25) {
+		c := c05NearTemporalOrSame(s, b)
+		return c05Case{Kind: "triple", A: a, B: b, C: c}
+	}
+	return c05Case{Kind: "pair", A: a, B: b, LitA: s.Bool(), LitB: s.Bool()}
+}
+
+func c05NearTemporalOrSame(s Src, v Val) Val {
+	switch v.K {
+	case "Date", "DateTime", "Time":
+		return c05NearTemporal(s, v)
+	case "Integer":
+		if n, _ := strconv.ParseInt(v.S, 10, 64); n < 2147483647 {
+			return iv(n + 1)
+		}
+	case "Decimal":
+		return dv(v.S + "1")
+	case "String":
+		return sv(v.S + "a")
+	}
+	return v
+}
+
+// c05GenVal: a generated single System value.
+func c05GenVal(s Src) Val {
+	switch s.Intn(7) {
+	case 0:
+		return iv(int64(s.Int32()))
+	case 1:
+		ip := strconv.FormatInt(int64(s.Int32()), 10)
+		if s.Bool() {
+			ip = strconv.Itoa(s.Range(-3, 3))
+		}
+		return dv(ip + "." + s.Str(digits, 1, 18))
+	case 2:
+		return sv(s.Str([]string{"a", "b", "A", "B", " ", "z", "é", "日", "😀", "\u0301"}, 0, 5))
+	case 3, 4:
+		kind, text := c09GenStart(s)
+		if kind == "DateTime" && strings.Contains(text, ":") && s.Prob(60) {
+			// any offset of the FHIR range instead of the four of the C09 generator
+			for _, o := range []string{"+05:30", "-11:00", "Z"} {
+				text = strings.TrimSuffix(text, o)
+			}
+			text += genOffset(s)
+		}
+		return Val{K: kind, S: text}
+	case 5:
+		return timeV(fmt.Sprintf("%02d:%02d:%02d.%03d", s.Intn(24), s.Intn(60), s.Intn(60), s.Intn(1000)))
+	}
+	return qv(strconv.Itoa(s.Range(-1000, 1000)), pickOne(s, []string{"mg", "kg", "1", "days", "year"}))
+}
+
+// c05NearTemporal: the same instant at another offset, a neighbour one unit of the last
+// component away, or a coarser precision of the same value.
+func c05NearTemporal(s Src, a Val) Val {
+	isTime := a.K == "Time"
+	t, err := parseAnyTemporal(a.S, isTime)
+	if err != nil {
+		return a
+	}
+	render := func(t temporal) Val { return Val{K: a.K, S: renderTemporal(t, a.K)} }
+	switch s.Intn(4) {
+	case 0: // coarser precision
+		if (isTime && t.prec > 3) || (!isTime && t.prec > 0) {
+			c := t
+			c.prec--
+			if c.prec == 5 {
+				c.frac = ""
+			}
+			if c.prec < 3 {
+				c.hasOff, c.z, c.off = false, false, 0
+			}
+			return render(c)
+		}
+	case 1: // the same instant, another offset
+		if a.K == "DateTime" && t.prec >= 3 && t.hasOff {
+			var o temporal
+			if parseTemporalOffset(&o, genOffset(s)) == nil {
+				g := t.goTime().In(time.FixedZone("", o.off*60))
+				c := t
+				c.Y, c.M, c.D, c.h, c.m, c.s = g.Year(), int(g.Month()), g.Day(), g.Hour(), g.Minute(), g.Second()
+				c.hasOff, c.z, c.off = true, false, o.off
+				if c.Y >= 1 && c.Y <= 9999 && (t.prec >= 4 || o.off%60 == t.off%60) {
+					return render(c)
+				}
+			}
+		}
+	case 2: // last component ±1 (no carry: stay inside the component's range)
+		c := t
+		d := pickOne(s, []int{1, -1})
+		switch c.prec {
+		case 0:
+			c.Y += d
+		case 1:
+			c.M += d
+		case 2:
+			c.D += d
+		case 3:
+			c.h += d
+		case 4:
+			c.m += d
+		default:
+			c.s += d
+		}
+		if c.Y >= 1 && c.Y <= 9999 && c.M >= 1 && c.M <= 12 && c.D >= 1 && c.D <= 28 && c.h >= 0 && c.h <= 23 && c.m >= 0 && c.m <= 59 && c.s >= 0 && c.s <= 59 {
+			return render(c)
+		}
+	}
+	return c05GenValOfKind(s, a.K)
+}
+
+func c05GenValOfKind(s Src, k string) Val {
+	for i := 0; i < 30; i++ {
+		if v := c05GenVal(s); v.K == k {
+			return v
+		}
+	}
+	return Val{K: k, S: map[string]string{"Date": "2020-02-29", "DateTime": "2020-02-29T10:30:00Z", "Time": "10:30:00"}[k]}
 }
 
 func c05EnumPairs(yield func(c05Case)) {
@@ -417,6 +624,41 @@ func TestC05(t *testing.T) {
 		Stage[c05Case]{Name: "pairs", Gen: c05GenPair, Run: c05RunPair, N: pick(3000, 60000)},
 		Stage[c05Case]{Name: "triples", Gen: c05GenTriple, Run: c05RunPair, N: pick(3000, 100000)},
 		Stage[c05Case]{Name: "collections", Gen: c05GenColl, Run: c05RunPair, N: pick(3000, 60000)},
+		Stage[c05Case]{Name: "near", Gen: c05GenNear, Run: c05RunPair, N: pick(6000, 150000)},
 	)
 	runProperty(t, r, stages...)
+}
+
+// renderTemporal spells a temporal value at its precision (DateTime values below hour
+// precision carry the trailing T of the literal syntax).
+func renderTemporal(t temporal, kind string) string {
+	var b strings.Builder
+	if kind != "Time" {
+		fmt.Fprintf(&b, "%04d", t.Y)
+		if t.prec >= 1 {
+			fmt.Fprintf(&b, "-%02d", t.M)
+		}
+		if t.prec >= 2 {
+			fmt.Fprintf(&b, "-%02d", t.D)
+		}
+		if kind == "DateTime" {
+			b.WriteString("T")
+		}
+	}
+	if t.prec >= 3 {
+		fmt.Fprintf(&b, "%02d", t.h)
+	}
+	if t.prec >= 4 {
+		fmt.Fprintf(&b, ":%02d", t.m)
+	}
+	if t.prec >= 5 {
+		fmt.Fprintf(&b, ":%02d", t.s)
+	}
+	if t.prec >= 6 && t.frac != "" {
+		b.WriteString("." + t.frac)
+	}
+	if kind == "DateTime" && t.prec >= 3 && t.hasOff {
+		b.WriteString(t.tzString())
+	}
+	return b.String()
 }
